@@ -1,11 +1,74 @@
-(* C09 - property theorems (thin slice; extended below as proofs land). *)
-Require Import List NArith Bool.
-Require Import KV.Rsp09.Model KV.Rsp09.Spec.
+(* C09 - A time window reports exactly the stream items of one aligned interval.
+   This file contains only the property theorems; each is closed by `exact <lemma>` and followed by
+   Print Assumptions.  The lemmas live in ContentProofs.v, ScopeProofs.v, StepProofs.v, RunProofs.v.
+
+   Setting: `run w s evs` (Model.v) is the list of firings of a CSPARQLWindow of width w and slide s
+   (ReportStrategy::OnWindowClose, Tick::TimeDriven, t_0 = 0) fed the stream evs : list (item, timestamp)
+   through add_to_window, one event after the other.  A firing records the index and timestamp of the
+   triggering event, the reported window (open, close) and its content (item -> latest timestamp).
+   Every theorem is for every width, every slide >= 1 and every stream with non-decreasing timestamps
+   (`in_order`), of any length, with duplicates and arbitrary gaps.
+   Arithmetic is exact (N); the code's f64 computation in `scope` agrees with it for values below 2^53
+   (hypothesis of the correspondence, not proved here). *)
+Require Import List NArith Bool Sorted.
+Require Import KV.Rsp09.Model KV.Rsp09.Spec KV.Rsp09.RunProofs KV.Rsp09.CheckerProofs.
 Import ListNotations.
 Open Scope N_scope.
 
+(* Content exactness.  Every firing f is triggered by the event at position `fidx f` (timestamp
+   `ftime f`), and there is a close c with: the reported window is [c - w, c), s divides c,
+   c <= triggering timestamp, and (firing_ok / content_exact) the content holds each item once and
+      (i, u) is in the content  <->  (i, u) is an event of the stream, c - w <= u < c, and u is the
+                                      latest timestamp of i in [c - w, c)
+   - none missing, none foreign.  Second conjunct: the same at the level of item sets. *)
+Theorem C09_content_exact :
+  forall (w s : N) (evs : list (N * N)),
+    1 <= w -> 1 <= s -> in_order evs ->
+    forall f, In f (run w s evs) ->
+      firing_ok w s evs f /\
+      content_items_exact w (wclose (fwin f)) evs (fcont f).
+Proof. exact thm_content_exact. Qed.
+Print Assumptions C09_content_exact.
+
+(* Monotonicity.  For any two firings f before g in the run: g is triggered by a later event, at a
+   strictly larger timestamp, its interval closes strictly later and opens no earlier. *)
+Theorem C09_monotone :
+  forall (w s : N) (evs : list (N * N)),
+    1 <= w -> 1 <= s -> in_order evs ->
+    StronglySorted firing_lt (run w s evs).
+Proof. exact thm_monotone. Qed.
+Print Assumptions C09_monotone.
+
+(* Exactly once, outside the known class.  Let (x, t) be an event whose predecessor has timestamp
+   tp = prev_ts pre (t_0 = 0 for the first event) with tp < t <= tp + s, and let c be a multiple of the
+   slide with tp < c <= t (the interval [c - w, c) closes at this event).  Unless the case is in the
+   class C09-hopping-gap (slide > width and no event timestamp in [c - w, c]), the interval is reported
+   by this event and by no other firing of the run. *)
+Theorem C09_once_general :
+  forall (w s : N) (evs pre : list (N * N)) (x t : N) (post : list (N * N)) (c : N),
+    1 <= w -> 1 <= s -> in_order evs -> evs = pre ++ (x, t) :: post ->
+    prev_ts pre < t -> t <= prev_ts pre + s ->
+    N.divide s c -> prev_ts pre < c -> c <= t ->
+    known_gap w s evs c = false ->
+    reported_once_at (run w s evs) c (N.of_nat (length pre)).
+Proof. exact thm_once_general. Qed.
+Print Assumptions C09_once_general.
+
+(* Exactly once for sliding and tumbling windows (width >= slide): no side condition. *)
+Theorem C09_once :
+  forall (w s : N) (evs pre : list (N * N)) (x t : N) (post : list (N * N)) (c : N),
+    1 <= s -> s <= w -> in_order evs -> evs = pre ++ (x, t) :: post ->
+    prev_ts pre < t -> t <= prev_ts pre + s ->
+    N.divide s c -> prev_ts pre < c -> c <= t ->
+    reported_once_at (run w s evs) c (N.of_nat (length pre)).
+Proof. exact thm_once. Qed.
+Print Assumptions C09_once.
+
+(* The full statement "every interval that closes is reported exactly once" (C09_once_general without
+   the known_gap hypothesis) is false for hopping windows: w = 1, s = 3, stream [1; 4]; the interval
+   [2, 3) closes at the second event, one slide after the first, and no firing reports it. *)
 Theorem C09_gap_refuted :
-  exists w s evs c pre x t post,
+  exists (w s : N) (evs : list (N * N)) (c : N) (pre : list (N * N)) (x t : N) (post : list (N * N)),
     1 <= w /\ 1 <= s /\ in_order evs /\ evs = pre ++ (x, t) :: post /\
     prev_ts pre < t /\ t <= prev_ts pre + s /\ N.divide s c /\ prev_ts pre < c /\ c <= t /\
     known_gap w s evs c = true /\
@@ -19,3 +82,84 @@ Proof.
   split; [vm_compute; reflexivity|]. vm_compute. intros f [].
 Qed.
 Print Assumptions C09_gap_refuted.
+
+(* Model adequacy: the fuel of the model's scope loop always suffices (the totalising branch of
+   Model.scope is dead code). *)
+Theorem C09_model_scope_total :
+  forall (w s e : N) (act : list (win * content)), 1 <= s -> scope_opt w s e act <> None.
+Proof. exact thm_scope_total. Qed.
+Print Assumptions C09_model_scope_total.
+
+(* The executable checker used by the correspondence check (Spec.spec_check, evaluated by
+   Run.model_check / Run.check_firings) decides the property: it reports no violated clause for a list of
+   firings fs observed on evs iff fs satisfies the three clauses (every firing an exact aligned report;
+   strictly ordered; every closing interval outside the known class reported exactly once at its event). *)
+Theorem C09_checker_decides :
+  forall (w s : N) (evs : list (N * N)) (fs : list firing), 1 <= s ->
+    (fst (spec_check w s evs fs) = [] <-> spec_holds w s evs fs).
+Proof. exact thm_checker_decides. Qed.
+Print Assumptions C09_checker_decides.
+
+(* ... and it accepts every run of the model on an ordered stream (the three theorems above, combined). *)
+Theorem C09_checker_accepts_model :
+  forall (w s : N) (evs : list (N * N)), 1 <= w -> 1 <= s -> in_order evs ->
+    fst (spec_check w s evs (run w s evs)) = [].
+Proof. exact thm_checker_accepts_model. Qed.
+Print Assumptions C09_checker_accepts_model.
+
+(* ---------------------------------------------------------------------------------------------- *)
+(* non-vacuity *)
+
+(* a concrete run: width 3, slide 2; item 0 occurs twice; four reports, the third one keeps the latest
+   timestamp of item 0 *)
+Example C09_example_run :
+  run 3 2 [(0,1); (1,2); (0,3); (2,4); (3,9)] =
+  [ mkF 1 2 (0,2) (mkC [(0,1)] 1);
+    mkF 3 4 (1,4) (mkC [(0,3); (1,2)] 3);
+    mkF 4 9 (3,6) (mkC [(0,3); (2,4)] 4) ].
+Proof. vm_compute. reflexivity. Qed.
+
+Example C09_example_in_order : in_order [(0,1); (1,2); (0,3); (2,4); (3,9)].
+Proof. unfold in_order; cbn. repeat constructor; vm_compute; congruence. Qed.
+
+(* the hypotheses of C09_once are satisfiable with a non-empty report: the interval [1,4) closes at
+   the event (2,4) of the stream above and is reported exactly once, by the event at index 3 *)
+Example C09_example_once :
+  reported_once_at (run 3 2 [(0,1); (1,2); (0,3); (2,4); (3,9)]) 4 3.
+Proof.
+  apply (C09_once 3 2 _ [(0,1); (1,2); (0,3)] 2 4 [(3,9)] 4).
+  - vm_compute; congruence.
+  - vm_compute; congruence.
+  - exact C09_example_in_order.
+  - reflexivity.
+  - vm_compute; reflexivity.
+  - vm_compute; congruence.
+  - exists 2; reflexivity.
+  - vm_compute; reflexivity.
+  - vm_compute; congruence.
+Qed.
+
+(* the hypotheses of C09_once_general are satisfiable for a hopping window (slide > width) outside the
+   known class: w = 2, s = 4, the interval [6,8) contains the event timestamp 7 *)
+Example C09_example_once_hopping :
+  reported_once_at (run 2 4 [(0,5); (1,7); (2,9)]) 8 2.
+Proof.
+  apply (C09_once_general 2 4 _ [(0,5); (1,7)] 2 9 [] 8).
+  - vm_compute; congruence.
+  - vm_compute; congruence.
+  - unfold in_order; cbn. repeat constructor; vm_compute; congruence.
+  - reflexivity.
+  - vm_compute; reflexivity.
+  - vm_compute; congruence.
+  - exists 2; reflexivity.
+  - vm_compute; reflexivity.
+  - vm_compute; congruence.
+  - vm_compute; reflexivity.
+Qed.
+
+(* the executable Spec checker accepts the model's run on the example and flags the gap witness only
+   as a known-class skip *)
+Example C09_example_check : spec_check 3 2 [(0,1); (1,2); (0,3); (2,4); (3,9)] (run 3 2 [(0,1); (1,2); (0,3); (2,4); (3,9)]) = ([], []).
+Proof. vm_compute. reflexivity. Qed.
+Example C09_example_check_gap : spec_check 1 3 [(0,1); (1,4)] (run 1 3 [(0,1); (1,4)]) = ([], [3]).
+Proof. vm_compute. reflexivity. Qed.
